@@ -1,3 +1,477 @@
-use crate::world::{World, R};
-use serde_json::Value;
-pub fn exec(_w: &mut World, name: &str, _op: &Value) -> R<Value> { Err(format!("unknown op {name}")) }
+//! Key documents written by one program and read by another (C19): SEC1 bytes, hex, SPKI and
+//! PKCS#8 / SEC1 DER and PEM. A document is a byte slot, so it takes the same storage faults as
+//! any other message. Writers are checked against the reference encoders / DER reader, readers
+//! against "Ok => a valid curve point / the d the document holds" and "valid document => Ok".
+
+use crate::libglue as glue;
+use crate::refmodel::der;
+use crate::refmodel::sm2 as rsm2;
+use crate::simrng::{run_lib_norng, Class, Outcome};
+use crate::world::{fnv, gs, World, R};
+use gm_sm2::key::{Sm2PrivateKey, Sm2PublicKey};
+use num_bigint::BigUint;
+use num_traits::Zero;
+use pkcs8::{DecodePrivateKey, DecodePublicKey, EncodePrivateKey, EncodePublicKey, LineEnding};
+use serde_json::{json, Value};
+
+pub fn exec(w: &mut World, name: &str, op: &Value) -> R<Value> {
+    match name {
+        "doc.pk.write" => pk_write(w, op),
+        "doc.pk.read" => pk_read(w, op),
+        "doc.sk.write" => sk_write(w, op),
+        "doc.sk.read" => sk_read(w, op),
+        _ => Err(format!("unknown op {name}")),
+    }
+}
+
+// ---- reference side -------------------------------------------------------------------------
+
+fn b64_decode(s: &str) -> Option<Vec<u8>> {
+    let mut out = vec![];
+    let mut acc: u32 = 0;
+    let mut bits = 0;
+    let mut pad = 0;
+    for ch in s.bytes() {
+        let v = match ch {
+            b'A'..=b'Z' => ch - b'A',
+            b'a'..=b'z' => ch - b'a' + 26,
+            b'0'..=b'9' => ch - b'0' + 52,
+            b'+' => 62,
+            b'/' => 63,
+            b'=' => {
+                pad += 1;
+                continue;
+            }
+            b'\r' | b'\n' | b' ' | b'\t' => continue,
+            _ => return None,
+        };
+        if pad > 0 {
+            return None;
+        }
+        acc = (acc << 6) | v as u32;
+        bits += 6;
+        if bits >= 8 {
+            bits -= 8;
+            out.push((acc >> bits) as u8);
+            acc &= (1 << bits) - 1;
+        }
+    }
+    Some(out)
+}
+
+fn b64_encode(b: &[u8]) -> String {
+    const T: &[u8; 64] = b"ABCDEFGHIJKLMNOPQRSTUVWXYZabcdefghijklmnopqrstuvwxyz0123456789+/";
+    let mut s = String::new();
+    for ch in b.chunks(3) {
+        let n = (ch[0] as u32) << 16 | (*ch.get(1).unwrap_or(&0) as u32) << 8 | *ch.get(2).unwrap_or(&0) as u32;
+        s.push(T[(n >> 18) as usize & 63] as char);
+        s.push(T[(n >> 12) as usize & 63] as char);
+        s.push(if ch.len() > 1 { T[(n >> 6) as usize & 63] as char } else { '=' });
+        s.push(if ch.len() > 2 { T[n as usize & 63] as char } else { '=' });
+    }
+    s
+}
+
+pub fn pem_wrap(label: &str, der: &[u8]) -> Vec<u8> {
+    let b = b64_encode(der);
+    let mut s = format!("-----BEGIN {label}-----\n");
+    for line in b.as_bytes().chunks(64) {
+        s.push_str(std::str::from_utf8(line).unwrap());
+        s.push('\n');
+    }
+    s.push_str(&format!("-----END {label}-----\n"));
+    s.into_bytes()
+}
+
+fn pem_unwrap(label: &str, doc: &[u8]) -> Option<Vec<u8>> {
+    let s = std::str::from_utf8(doc).ok()?;
+    let begin = format!("-----BEGIN {label}-----");
+    let end = format!("-----END {label}-----");
+    let a0 = s.find(&begin)?;
+    let a = a0 + begin.len();
+    let z = s.find(&end)?;
+    if z < a || !s[..a0].trim().is_empty() || !s[z + end.len()..].trim().is_empty() {
+        return None;
+    }
+    b64_decode(&s[a..z])
+}
+
+/// C19's notion of a valid SEC1 point encoding: right length, coordinates < p, on the curve.
+/// (For 65-byte encodings the prefix byte is not judged here; C06 judges it for ciphertexts.)
+fn c19_point(b: &[u8]) -> rsm2::Pt {
+    rsm2::with_curve(|c| {
+        if b.len() == 65 {
+            let mut t = b.to_vec();
+            if t[0] != 2 && t[0] != 3 {
+                t[0] = 4;
+                return c.decode_point(&t).ok().flatten();
+            }
+            None
+        } else {
+            c.decode_point(b).ok().flatten()
+        }
+    })
+}
+
+/// strict validity of a public-key document (used where the library is REQUIRED to accept)
+fn strictly_valid_pk_doc(enc: &str, doc: &[u8]) -> rsm2::Pt {
+    let strict = |b: &[u8]| rsm2::with_curve(|c| c.decode_point(b).ok().flatten());
+    match enc {
+        "sec1c" | "sec1u" => strict(doc),
+        "hexc" | "hexu" => std::str::from_utf8(doc).ok().and_then(|s| hex::decode(s).ok()).and_then(|b| strict(&b)),
+        _ => {
+            // DER / PEM: required to decode only when byte-identical to a canonical encoding
+            let pt = ref_pk_from_doc(enc, doc);
+            let pt = match &pt {
+                Some(_) => pt,
+                None => return None,
+            };
+            let canon = ref_pk_to_doc(enc, &pt);
+            let canon_crlf: Vec<u8> = String::from_utf8_lossy(&canon).replace('\n', "\r\n").into_bytes();
+            if doc == canon.as_slice() || (enc == "spki-pem" && doc == canon_crlf.as_slice()) {
+                pt
+            } else {
+                None
+            }
+        }
+    }
+}
+
+fn ref_pk_from_doc(enc: &str, doc: &[u8]) -> rsm2::Pt {
+    match enc {
+        "sec1c" | "sec1u" => c19_point(doc),
+        "hexc" | "hexu" => std::str::from_utf8(doc).ok().and_then(|s| hex::decode(s).ok()).and_then(|b| c19_point(&b)),
+        "spki-der" => der::spki_point(doc).and_then(|p| c19_point(&p)),
+        "spki-pem" => pem_unwrap("PUBLIC KEY", doc).and_then(|d| der::spki_point(&d)).and_then(|p| c19_point(&p)),
+        _ => None,
+    }
+}
+
+fn ref_pk_to_doc(enc: &str, pt: &rsm2::Pt) -> Vec<u8> {
+    let (c, u) = rsm2::with_curve(|cv| (cv.encode_point(pt, true), cv.encode_point(pt, false)));
+    match enc {
+        "sec1c" => c,
+        "sec1u" => u,
+        "hexc" => hex::encode(c).into_bytes(),
+        "hexu" => hex::encode(u).into_bytes(),
+        "spki-der" => der::spki_build(&u),
+        _ => pem_wrap("PUBLIC KEY", &der::spki_build(&u)),
+    }
+}
+
+/// (d bytes, optional embedded public point) the document holds, by the reference DER reader.
+fn ref_sk_from_doc(enc: &str, doc: &[u8]) -> Option<(Vec<u8>, Option<Vec<u8>>)> {
+    match enc {
+        "bytes" => Some((doc.to_vec(), None)),
+        "hex" => std::str::from_utf8(doc).ok().and_then(|s| hex::decode(s).ok()).map(|b| (b, None)),
+        "pkcs8-der" => der::pkcs8_private(doc),
+        "pkcs8-pem" => pem_unwrap("PRIVATE KEY", doc).and_then(|d| der::pkcs8_private(&d)),
+        "sec1-der" => der::sec1_private(doc),
+        _ => None,
+    }
+}
+
+fn ref_sk_to_doc(enc: &str, d: &[u8; 32]) -> Vec<u8> {
+    let pt = rsm2::with_curve(|c| c.encode_point(&c.mul_g(&BigUint::from_bytes_be(d)), false));
+    match enc {
+        "bytes" => d.to_vec(),
+        "hex" => hex::encode(d).into_bytes(),
+        "pkcs8-der" => der::pkcs8_build(d, Some(&pt)),
+        "pkcs8-pem" => pem_wrap("PRIVATE KEY", &der::pkcs8_build(d, Some(&pt))),
+        _ => {
+            // bare SEC1 ECPrivateKey
+            let inner = der::pkcs8_build(d, Some(&pt));
+            // unwrap the OCTET STRING of the PKCS#8 we just built
+            let (_, body, _) = der::read_tlv(&inner).unwrap();
+            let (_, _, r1) = der::read_tlv(body).unwrap();
+            let (_, _, r2) = der::read_tlv(r1).unwrap();
+            let (_, sec1, _) = der::read_tlv(r2).unwrap();
+            sec1.to_vec()
+        }
+    }
+}
+
+// ---- ops ------------------------------------------------------------------------------------
+
+fn classify<T>(o: Outcome<Option<T>>) -> (Class, Option<T>) {
+    match o {
+        Outcome::Done(Some(v)) => (Class::Ok, Some(v)),
+        Outcome::Done(None) => (Class::Err, None),
+        Outcome::Panic(_) => (Class::Panic, None),
+        Outcome::Hang => (Class::Hang, None),
+    }
+}
+
+fn pk_write(w: &mut World, op: &Value) -> R<Value> {
+    let enc = gs(op, "enc")?.to_string();
+    let wire = w.slot_of(op, "pk")?;
+    let out_slot = gs(op, "out")?.to_string();
+    let pt = c19_point(&wire);
+    if gs(op, "impl")? == "ref" {
+        if pt.is_none() {
+            return Err("ref pk.write: invalid key".into());
+        }
+        w.put(&out_slot, ref_pk_to_doc(&enc, &pt));
+        return Ok(json!({"class":"Ok"}));
+    }
+    w.bump(&format!("call.sm2.pk.to_{enc}"));
+    let out = run_lib_norng(|| {
+        let pk = Sm2PublicKey::new(&wire).ok()?;
+        Some(match enc.as_str() {
+            "sec1c" => pk.to_bytes(true),
+            "sec1u" => pk.to_bytes(false),
+            "hexc" => pk.to_hex_string(true).into_bytes(),
+            "hexu" => pk.to_hex_string(false).into_bytes(),
+            "spki-der" => pk.to_public_key_der().ok()?.as_bytes().to_vec(),
+            _ => pk.to_public_key_pem(LineEnding::LF).ok()?.into_bytes(),
+        })
+    });
+    let (class, doc) = classify(out);
+    let case = fnv(&[b"pkwrite", enc.as_bytes(), &wire]);
+    if pt.is_some() {
+        let key = json!({"entry":format!("sm2.pk.to_{enc}"),"class":"valid key","outcome":class.as_str()});
+        let decoded = doc.as_ref().map(|d| ref_pk_from_doc(&enc, d)).unwrap_or(None);
+        w.check("C19", "O19.2-written-document-decodes", decoded.is_some() && decoded == pt, case, key.clone(), || {
+            format!("{enc} document written by the library does not decode (reference reader) to the key: {:?}", doc.as_ref().map(hex::encode))
+        });
+        if matches!(enc.as_str(), "sec1c" | "sec1u" | "hexc" | "hexu" | "spki-der") {
+            let want = ref_pk_to_doc(&enc, &pt);
+            w.check("C19", "O19.2-canonical-bytes", doc.as_ref() == Some(&want), case, key, || {
+                format!("{enc} bytes differ from the canonical encoding: got {:?} want {}", doc.as_ref().map(hex::encode), hex::encode(&want))
+            });
+        }
+    }
+    if let Some(d) = doc {
+        w.put(&out_slot, d);
+    }
+    Ok(json!({"class": class.as_str()}))
+}
+
+fn pk_read(w: &mut World, op: &Value) -> R<Value> {
+    let enc = gs(op, "enc")?.to_string();
+    let doc = w.slot_of(op, "doc")?;
+    let case = fnv(&[b"pkread", enc.as_bytes(), &doc]);
+    let want = ref_pk_from_doc(&enc, &doc);
+    let text = matches!(enc.as_str(), "hexc" | "hexu" | "spki-pem");
+    let as_str = std::str::from_utf8(&doc).ok().map(|s| s.to_string());
+    if text && as_str.is_none() {
+        w.bump("probe.doc.not-utf8-undeliverable");
+        return Ok(json!({"skipped":"text document is not UTF-8: cannot be handed to a &str API"}));
+    }
+    let entry = format!("sm2.pk.from_{enc}");
+    w.bump(&format!("call.{entry}"));
+    let out = run_lib_norng(|| {
+        let pk = match enc.as_str() {
+            "sec1c" | "sec1u" => Sm2PublicKey::new(&doc).ok()?,
+            "hexc" | "hexu" => Sm2PublicKey::from_hex_string(as_str.as_ref().unwrap()).ok()?,
+            "spki-der" => Sm2PublicKey::from_public_key_der(&doc).ok()?,
+            _ => {
+                if w_flag(op, "fromstr") {
+                    as_str.as_ref().unwrap().parse::<Sm2PublicKey>().ok()?
+                } else {
+                    Sm2PublicKey::from_public_key_pem(as_str.as_ref().unwrap()).ok()?
+                }
+            }
+        };
+        Some((glue::sm2_point_to_ref(&pk.point), pk.point.is_zero()))
+    });
+    let (class, got) = classify(out);
+    let input_class = doc_class(&enc, &doc);
+    w.check_class(&["C19", "C20"], &entry, &class, &input_class, case, "");
+    let key = json!({"entry":entry,"class":input_class,"outcome":class.as_str()});
+    if let Some((pt, inf)) = &got {
+        let valid = !inf && rsm2::with_curve(|c| c.on_curve(pt));
+        w.check("C19", "O19.3-decoded-point-valid", valid, case, key.clone(), || {
+            format!("{enc} decoder returned a key that is not a point of the curve (doc {})", hex::encode(&doc))
+        });
+        if matches!(enc.as_str(), "sec1c" | "sec1u" | "hexc" | "hexu") {
+            w.check("C19", "O19.3-encoding-validated", want.is_some(), case, key.clone(), || {
+                format!("{enc} decoder accepted an encoding with a wrong length / out-of-range coordinate / off-curve point: {}", hex::encode(&doc))
+            });
+        }
+        if want.is_some() {
+            w.check("C19", "O19.1-same-key", &want == pt, case, key.clone(), || format!("{enc} decoder returned a different key than the document holds"));
+        }
+        if let (Some(o), true) = (op.get("out").and_then(|v| v.as_str()), pt.is_some()) {
+            w.put(o, rsm2::with_curve(|c| c.encode_point(pt, false)));
+        }
+    }
+    if strictly_valid_pk_doc(&enc, &doc).is_some() {
+        w.check("C19", "O19.1-valid-document-decodes", class == Class::Ok, case, key, || {
+            format!("{enc} decoder ended in {} on a valid document {}", class.as_str(), hex::encode(&doc))
+        });
+    }
+    w.bump(if class == Class::Ok { "probe.doc.pk.accepted" } else { "probe.doc.pk.rejected" });
+    Ok(json!({"class": class.as_str()}))
+}
+
+fn w_flag(op: &Value, f: &str) -> bool {
+    op.get(f).and_then(|v| v.as_bool()).unwrap_or(false)
+}
+
+fn doc_class(enc: &str, doc: &[u8]) -> String {
+    match enc {
+        "sec1c" | "sec1u" => {
+            if doc.is_empty() {
+                "len=0".into()
+            } else if doc.len() == 33 || doc.len() == 65 {
+                "len in {33,65}".into()
+            } else {
+                "other length".into()
+            }
+        }
+        "hexc" | "hexu" => {
+            // classified by what the bytes are as a point encoding (the known finding on
+            // Sm2PublicKey::from_hex_string is keyed on these classes)
+            let b = std::str::from_utf8(doc).ok().and_then(|s| hex::decode(s).ok());
+            match b {
+                None => "not hex".into(),
+                Some(b) => {
+                    let strict = rsm2::with_curve(|c| c.decode_point(&b).is_ok());
+                    if strict {
+                        "hex of a valid point encoding".into()
+                    } else if b.len() == 65 && b[0] == 4 {
+                        "hex of 04||x||y that is not a curve point".into()
+                    } else {
+                        "hex of an undecodable point encoding".into()
+                    }
+                }
+            }
+        }
+        "hex" => {
+            let ok = std::str::from_utf8(doc).ok().and_then(|s| hex::decode(s).ok());
+            match ok {
+                None => "not hex".into(),
+                Some(b) if b.is_empty() => "hex of 0 bytes".into(),
+                Some(b) if b.len() == 33 || b.len() == 65 || b.len() == 32 => "hex of a plausible length".into(),
+                Some(b) if b.len() < 32 => "hex of <32 bytes".into(),
+                Some(_) => "hex of another length".into(),
+            }
+        }
+        "bytes" => {
+            if doc.len() < 32 {
+                "len<32".into()
+            } else if doc.len() == 32 {
+                "len=32".into()
+            } else {
+                "len>32".into()
+            }
+        }
+        _ => "document".into(),
+    }
+}
+
+fn sk_write(w: &mut World, op: &Value) -> R<Value> {
+    let enc = gs(op, "enc")?.to_string();
+    let d = w.slot_of(op, "d")?;
+    let out_slot = gs(op, "out")?.to_string();
+    if d.len() != 32 {
+        return Err("sk.write: d must be 32 bytes".into());
+    }
+    let mut da = [0u8; 32];
+    da.copy_from_slice(&d);
+    if gs(op, "impl")? == "ref" {
+        w.put(&out_slot, ref_sk_to_doc(&enc, &da));
+        return Ok(json!({"class":"Ok"}));
+    }
+    w.bump(&format!("call.sm2.sk.to_{enc}"));
+    let out = run_lib_norng(|| {
+        let sk = Sm2PrivateKey::new(&d).ok()?;
+        Some(match enc.as_str() {
+            "bytes" => sk.to_bytes_be(),
+            "hex" => sk.to_hex_string().into_bytes(),
+            "pkcs8-der" => sk.to_pkcs8_der().ok()?.as_bytes().to_vec(),
+            "pkcs8-pem" => sk.to_pkcs8_pem(LineEnding::LF).ok()?.as_bytes().to_vec(),
+            _ => sk.to_sec1_der().ok()?.to_vec(),
+        })
+    });
+    let (class, doc) = classify(out);
+    let case = fnv(&[b"skwrite", enc.as_bytes(), &d]);
+    let dn = BigUint::from_bytes_be(&d);
+    let n = rsm2::with_curve(|c| c.n.clone());
+    if !dn.is_zero() && dn < (&n - 1u32) {
+        let key = json!({"entry":format!("sm2.sk.to_{enc}"),"class":"d in [1,n-2]","outcome":class.as_str()});
+        let parsed = doc.as_ref().and_then(|x| ref_sk_from_doc(&enc, x));
+        let want_pub = rsm2::with_curve(|c| c.encode_point(&c.mul_g(&dn), false));
+        let ok = match &parsed {
+            Some((dd, pubk)) => dd == &d && pubk.as_ref().map(|p| p == &want_pub).unwrap_or(true),
+            None => false,
+        };
+        w.check("C19", "O19.2-written-document-decodes", ok, case, key, || {
+            format!("{enc} private-key document written by the library does not hold d / the matching public key (reference reader): {:?}", doc.as_ref().map(hex::encode))
+        });
+    }
+    if let Some(x) = doc {
+        w.put(&out_slot, x);
+    }
+    Ok(json!({"class": class.as_str()}))
+}
+
+fn sk_read(w: &mut World, op: &Value) -> R<Value> {
+    let enc = gs(op, "enc")?.to_string();
+    let doc = w.slot_of(op, "doc")?;
+    let case = fnv(&[b"skread", enc.as_bytes(), &doc]);
+    let text = matches!(enc.as_str(), "hex" | "pkcs8-pem");
+    let as_str = std::str::from_utf8(&doc).ok().map(|s| s.to_string());
+    if text && as_str.is_none() {
+        w.bump("probe.doc.not-utf8-undeliverable");
+        return Ok(json!({"skipped":"text document is not UTF-8: cannot be handed to a &str API"}));
+    }
+    let entry = format!("sm2.sk.from_{enc}");
+    w.bump(&format!("call.{entry}"));
+    let out = run_lib_norng(|| {
+        let sk = match enc.as_str() {
+            "bytes" => Sm2PrivateKey::new(&doc).ok()?,
+            "hex" => Sm2PrivateKey::from_hex_string(as_str.as_ref().unwrap()).ok()?,
+            "pkcs8-der" => Sm2PrivateKey::from_pkcs8_der(&doc).ok()?,
+            "pkcs8-pem" => Sm2PrivateKey::from_pkcs8_pem(as_str.as_ref().unwrap()).ok()?,
+            _ => {
+                use pkcs8::der::Decode;
+                let ec = sec1::EcPrivateKey::from_der(&doc).ok()?;
+                Sm2PrivateKey::try_from(ec).ok()?
+            }
+        };
+        Some((sk.to_bytes_be(), glue::sm2_point_to_ref(&sk.public_key.point)))
+    });
+    let (class, got) = classify(out);
+    let input_class = doc_class(&enc, &doc);
+    w.check_class(&["C19", "C20"], &entry, &class, &input_class, case, "");
+    let key = json!({"entry":entry,"class":input_class,"outcome":class.as_str()});
+    let held = ref_sk_from_doc(&enc, &doc);
+    let n = rsm2::with_curve(|c| c.n.clone());
+    if let Some((d, pubpt)) = &got {
+        if let Some((hd, _)) = held.as_ref().filter(|(h, _)| h.len() == 32) {
+            w.check("C19", "O19.1-same-key", hd == d, case, key.clone(), || {
+                format!("{enc} decoder returned d={} but the document holds {}", hex::encode(d), hex::encode(hd))
+            });
+        }
+        if matches!(enc.as_str(), "bytes" | "hex") {
+            w.check("C19", "O19.3-encoding-validated", held.as_ref().map(|(h, _)| h.len() == 32).unwrap_or(false), case, key.clone(), || {
+                format!("{enc} decoder accepted a private key of the wrong length: {}", hex::encode(&doc))
+            });
+        }
+        let dn = BigUint::from_bytes_be(d);
+        let want = rsm2::with_curve(|c| c.mul_g(&(&dn % &c.n)));
+        w.check("C19", "O19.1-public-matches", &want == pubpt, case, key.clone(), || format!("decoded private key d={} carries a public key that is not [d]G", hex::encode(d)));
+        if let Some(o) = op.get("out_d").and_then(|v| v.as_str()) {
+            w.put(o, d.clone());
+        }
+    }
+    if let Some((hd, _)) = &held {
+        let dn = BigUint::from_bytes_be(hd);
+        let canonical = hd.len() == 32 && !dn.is_zero() && dn < (&n - 1u32) && {
+            let mut a = [0u8; 32];
+            a.copy_from_slice(hd);
+            let canon = ref_sk_to_doc(&enc, &a);
+            let canon_crlf: Vec<u8> = String::from_utf8_lossy(&canon).replace('\n', "\r\n").into_bytes();
+            matches!(enc.as_str(), "bytes" | "hex") || doc == canon || (enc == "pkcs8-pem" && doc == canon_crlf)
+        };
+        if canonical && !dn.is_zero() && dn < (&n - 1u32) {
+            w.check("C19", "O19.1-valid-document-decodes", class == Class::Ok, case, key, || {
+                format!("{enc} decoder ended in {} on a valid document {}", class.as_str(), hex::encode(&doc))
+            });
+        }
+    }
+    w.bump(if class == Class::Ok { "probe.doc.sk.accepted" } else { "probe.doc.sk.rejected" });
+    Ok(json!({"class": class.as_str()}))
+}
